@@ -15,6 +15,12 @@ OBLIGATIONS = [
     ob("c05.f.fe_codec", "harness/x25519.c", "hf_fe_codec", ["fe25519_frombytes (fe_51)", "fe25519_tobytes (fe_51)", "fe25519_reduce (fe_51)"],
        "field element decode ignores bit 255 and encode returns the canonical value mod 2^255-19 for every limb vector below 2^54 (incl. values >= p): top bit ignored, non-canonical coordinates reduced",
        replayable=False, bound="values: limbs < 2^54 for the encoder"),
+    ob("c05.f.fe_linear", "harness/x25519.c", "hf_fe_linear", ["fe25519_add (fe_51)", "fe25519_cswap (fe_51)", "fe25519_cmov (fe_51)", "fe25519_isnegative", "fe25519_iszero", "fe25519_0/1/copy"],
+       "field operations against integers mod 2^255-19 for every pair of limb vectors below 2^54: add exact, cswap / cmov select exactly, isnegative / iszero on the canonical value",
+       props=("C05", "C07", "C12"), replayable=False, bound="values: limbs < 2^54", cbmc=["--unwind", "42", "--unwinding-assertions"]),
+    ob("c05.f.fe_sub", "harness/x25519.c", "hf_fe_sub", ["fe25519_sub (fe_51)", "fe25519_neg (fe_51)"],
+       "fe25519_sub / fe25519_neg against integers mod 2^255-19 for every pair of limb vectors below 2^54: value congruent to f - g (exactly F - G + k*p, 2 <= k <= 20), no limb underflow, limbs below 2^55 (mul / sq / mul32: NOT decided, the SAT back end does not finish)",
+       props=("C05", "C07", "C12"), replayable=False, bound="values: limbs < 2^54", timeout=1500, cbmc=["--unwind", "42", "--unwinding-assertions"]),
     ob("c05.f.dispatch", "harness/x25519_api.c", "hf_dispatch", ["crypto_scalarmult_curve25519"], "the back end receives the caller's scalar and point unmodified (distinct buffers, output over the point, output over the scalar); failure reported exactly when the back end fails or the shared point is all-zero", defs=["-DPART=0"]),
     ob("c05.f.dispatch_base", "harness/x25519_api.c", "hf_dispatch_base", ["crypto_scalarmult_curve25519_base"], "base-point multiplication forwards the caller's scalar (also in place) and returns the back end's result", defs=["-DPART=0"]),
     ob("c05.f.kx_session", "harness/x25519_api.c", "hf_kx_session", ["crypto_kx_client_session_keys", "crypto_kx_server_session_keys"],
